@@ -321,6 +321,8 @@ def strata(tier, seed):
         for spike in (2.5, -2.5, 3.0, -3.0, 1.5):
             for corner in ('hi', 'lo'):
                 cs.append(dict(shape=sh, pat='plateau', spike=spike, corner=corner, ranks=[], seed=seed))
+    for sh, rk in (([2] * 6, [1, 2, 2, 2, 2, 2, 1]), ([2] * 8, [1, 2, 3, 3, 3, 3, 2, 2, 1]), ([3] * 5, [1, 3, 6, 6, 3, 1]), ([10, 10], [1, 7, 1]), ([17, 3, 2], [1, 3, 2, 1])):    # moderately large d / rank / mode
+        cs.append(dict(shape=sh, ranks=rk, pat='gen', seed=seed, scaled=False))
     # one long mode next to short ones (the first / the last mode much larger than rank + 10: defaults of inner helpers would bind there)
     for sh, rk in (([32, 3], [1, 3, 1]), ([3, 32], [1, 3, 1]), ([24, 2, 2], [1, 2, 2, 1]), ([2, 2, 24], [1, 2, 2, 1]), ([40, 2], [1, 2, 1])):
         for pat in ('gen', 'intA'):
